@@ -184,7 +184,14 @@ def handle : Handler := fun m j =>
       let hyp := a.inBounds && a.storage.all (· < 256) && d.bitwidth.isSome && a.itemsize == npItemBytes d
       return obj [("tobytes", rJ natsJ (a.tobytes d nd)), ("torch_tobytes", rJ natsJ (a.torchTobytes d)),
                   ("units", natsJ a.units), ("in_bounds", toJson a.inBounds), ("hyp", toJson hyp),
-                  ("count", toJson a.items.length)]
+                  ("count", toJson a.items.length), ("np_check", toJson a.npCheck),
+                  ("torch_check", toJson a.torchCheck), ("span_ok", toJson a.spanOk),
+                  ("nonempty_storage", toJson (a.storage.length != 0))]
+  | "strided.check" => some do
+      -- the constructor checks alone (out-of-bounds descriptions included)
+      let a ← arrOfJson (← j.getObjVal? "repr")
+      return obj [("np_check", toJson a.npCheck), ("torch_check", toJson a.torchCheck),
+                  ("in_bounds", toJson a.inBounds), ("span_ok", toJson a.spanOk)]
   | "trepr.packle" => some do
       return obj [("r", natsJ (packLE (← getNat j "bw") (← getNats j "xs")))]
   | _ => none
